@@ -6,7 +6,7 @@ import PhyModel.Proofs.StoreCache_addSubIn
 import PhyModel.Proofs.StoreCache_dictRT
 /-! C06 over histories: one `step` on a system of live handles keeps every handle's cache in order;
 `run` over any list of operations does. -/
-namespace PhyModel.Store
+namespace PhyModel.Store.C06
 open PhyModel
 
 /-- the data indices an operation mentions lie inside the data set (where `DataNZ` speaks; used
@@ -170,4 +170,4 @@ theorem cacheOK_run (dt : Data) (hNZ : DataNZ dt) : ∀ (ops : List Op) (sys sys
       (fun o ho => hin o (List.mem_cons_of_mem _ ho))
       (cacheOK_step' dt hNZ sys sys1 op hal.1 (hin op List.mem_cons_self) hc h1) h2
 
-end PhyModel.Store
+end PhyModel.Store.C06
